@@ -90,6 +90,11 @@ pub assume_specification<T> [Option::<Option<T>>::flatten] (o: Option<Option<T>>
 pub assume_specification<T, E, F: FnOnce(E) -> T> [Result::<T, E>::unwrap_or_else] (r: Result<T, E>, f: F) -> (t: T)
     requires r is Err ==> f.requires((r->Err_0,)),
     ensures r is Ok ==> t == r->Ok_0, r is Err ==> f.ensures((r->Err_0,), t);
+// TRUSTED[result-unwrap-or]: Result::unwrap_or returns the Ok value, or the given default for an Err (std doc).
+#[verifier::allow(undeclared_external_trait)]
+pub assume_specification<T, E> [std::result::Result::<T, E>::unwrap_or] (r: std::result::Result<T, E>, d: T) -> (t: T)
+    where E: std::marker::Destruct, T: std::marker::Destruct,
+    ensures t == (match r { Ok(v) => v, Err(_) => d });
 // TRUSTED[bool-then-some]: bool::then_some(t) is Some(t) if the bool is true, None otherwise (std doc).
 pub assume_specification<T> [bool::then_some::<T>] (b: bool, t: T) -> (r: Option<T>)
     ensures r == (if b { Some(t) } else { None::<T> });
